@@ -48,7 +48,54 @@ class C15(Prop):
     def budget(self, tier):
         return 60 if tier == "quick" else 1200
 
+    def gen_decidable_case(self, rng):
+        """Rule sets decided without the string scan (constant / filesize / read conditions, no string), several
+        namespaces, some disabled by a false global rule declared after a true one: every timeout point then lies
+        in the first evaluation pass, whose handler flushes what was decided so far."""
+        consts = [("bool", True), ("bool", True), ("bool", False),
+                  ("bin", "eq", ("filesize",), ("int", 3)), ("bin", "ge", ("filesize",), ("int", 0)),
+                  ("bin", "eq", ("readint", "uint8", ("int", 0)), ("int", 97)),
+                  ("defined", ("readint", "uint8", ("int", 1000))),
+                  ("bin", "eq", ("readint", "uint8", ("int", 1000)), ("int", 0)),
+                  ("forrange", "any", None, ("int", 0), ("int", 2), ("bin", "eq", ("bound", 0), ("int", 1)))]
+        nns = rng.range(2, 3)
+        rules, per_ns, ordn = [], {}, 0
+        for ns in range(nns):
+            ng = rng.choice([0, 1, 2, 2, 3])
+            for k in range(ng):
+                # true globals first, a false one later (the earlier ones then await their invalidation)
+                c = ("bool", True) if k + 1 < ng or rng.chance(1, 2) else rng.choice([("bool", False), consts[7]])
+                i = per_ns.setdefault(ns, 0); per_ns[ns] += 1
+                rules.append({"ns": ns, "name": "g%d" % i, "global": True, "private": rng.chance(1, 4), "strings": [],
+                              "cond": c, "id": len(rules)})
+        order = list(range(nns))
+        for _ in range(rng.range(2, 5)):
+            ns = rng.choice(order)
+            i = per_ns.setdefault(ns, 0); per_ns[ns] += 1
+            rules.append({"ns": ns, "name": "r%d" % i, "global": False, "private": rng.chance(1, 5), "strings": [],
+                          "cond": rng.choice(consts), "id": len(rules), "ord_index": ordn})
+            ordn += 1
+        # shuffle declaration order a little: ordinary rules may be declared before the globals of their namespace
+        if rng.chance(1, 2):
+            rules.sort(key=lambda r: (r["ns"], r["global"]))
+        remap = {}
+        oi = 0
+        for k, r in enumerate(rules):
+            r["id"] = k
+            if r["ns"] not in remap:
+                remap[r["ns"]] = len(remap)
+            r["ns"] = remap[r["ns"]]
+            if not r["global"]:
+                r["ord_index"] = oi
+                oi += 1
+        rs = json.loads(json.dumps({"rules": rules, "nns": len(remap)}))
+        return {"rs": rs, "mem": rng.choice(ruleset.MEMS).hex(), "full": False, "nm": False, "cb": rng.chance(1, 2),
+                "ev_nomatch": rng.chance(1, 2), "imports": rng.choice([[], ["math"]]), "ev_import": rng.chance(1, 2),
+                "ev_limit": False, "limit": 1000, "frag": None}
+
     def gen_case(self, rng):
+        if rng.chance(1, 5):
+            return self.gen_decidable_case(rng)
         raw = rng.chance(1, 4)
         rs = ruleset.gen_ruleset(rng, max_rules=5, depth=2, poison=30, raw_regex=40 if raw else 0)
         mem = rng.choice(ruleset.RAW_MEMS if raw else ruleset.MEMS)
